@@ -4,7 +4,7 @@
    executable forms of the property: Model/FocusCheck.v. *)
 From Coq Require Import List ZArith NArith String Bool.
 From SCC Require Import Lang.CoreSyn Model.Backend Model.Uniquify Model.Focus Model.FocusCheck
-     Proof.SubstProof Proof.FocusTheorems Proof.FocusExtra Proof.FocusExamples.
+     Sem.AxSem Sem.CoreSem Proof.SubstProof Proof.FocusTheorems Proof.FocusExtra Proof.FocusExamples Proof.FocusSem.
 Import ListNotations.
 
 (* ---- uniqueness of binders -------------------------------------------------------------------
@@ -98,3 +98,30 @@ Theorem C03_subst_sim_not_free_identity :
     subst_stmt s ps cs = Ok s.
 Proof. exact subst_not_free_stmt. Qed.
 Print Assumptions C03_subst_sim_not_free_identity.
+
+(* ---- semantic preservation ----------------------------------------------------------------------
+   Full statement (NOT proved; evaluated by modelrun `focus` on every case: run_core on the input vs
+   run_fs on the Rust output, verdict classes order-of-effects / semantic-mismatch): a run of the
+   original that ends defined (exit value or undefined arithmetic) is reproduced, prints in the same
+   order, by the focused program. *)
+Definition C03_focus_preserves_statement : Prop :=
+  forall p q args fuel, pre_check p = true -> focus_wf p = true -> focus_prog p = Ok q ->
+    let o := run_core fuel p args in
+    ((exists z, snd o = OExit z) \/ (exists w, snd o = OUndef w)) ->
+    exists fuel', run_fs fuel' q args = o.
+
+(* Proved fragment ("arguments that are values or operators"): the entry definition is straight-line
+   integer code - ifc / print / exit whose arguments are operator trees over literals and the
+   parameters, no mu, no data/codata, no calls - closed over its producer parameters, whose ids are
+   not 0 (e.g. a parameterless main; then uniquify leaves the definition alone).  For every
+   argument tuple both machines stop within a bound and the observations (prints in order, exit value
+   or undefined arithmetic) are EQUAL.
+   Gap to the full statement: mu-abstractions (by value and by name), constructors/destructors,
+   case/cocase, calls, parameters with id 0 (renamed by uniquify). *)
+Theorem C03_focus_preserves_partial :
+  forall p q args,
+    pre_check p = true -> focus_wf p = true -> entry_ok p = true -> focus_prog p = Ok q ->
+    exists n, forall fuel, (n <= fuel)%nat ->
+      run_fs fuel q args = run_core fuel p args /\ snd (run_core fuel p args) <> OOutOfFuel.
+Proof. exact focus_preserves_straight_line. Qed.
+Print Assumptions C03_focus_preserves_partial.
